@@ -946,8 +946,11 @@ func (r *Raft) AppendEntries(request *AppendEntriesRequest, response *AppendEntr
 		r.logger.Fatalf("failed to append entries to log: %v", err)
 	}
 
-	if request.LeaderCommit > r.commitIndex {
-		r.commitIndex = numeric.Min(request.LeaderCommit, r.log.LastIndex())
+	// Only the entries up to the last one covered by this request are known to match the
+	// leader's log: the commit index must not advance over a stale tail beyond them.
+	lastNewIndex := request.PrevLogIndex + uint64(len(request.Entries))
+	if request.LeaderCommit > r.commitIndex && lastNewIndex > r.commitIndex {
+		r.commitIndex = numeric.Min(request.LeaderCommit, lastNewIndex)
 		r.applyCond.Broadcast()
 	}
 
